@@ -89,6 +89,18 @@ def ospan(s):
         HX(s["tid"]), HX(s["sid"]), HX(s["pid"]), S(s["name"]), Z(s["start"]), Z(s["end"]), Z(s["kind"]), kvs(s["attrs"]))
 
 
+def oextra(s):
+    evs = coq_list(["(Build_oevent %s %s %s)" % (Z(e["t"]), S(e["n"]), kvs(e.get("attrs") or [])) for e in (s.get("events") or [])])
+    st = s.get("status")
+    return "(Build_oextra %s %s)" % (evs, "(Some (Build_ostatus %s %s))" % (S(st["msg"]), Z(st["code"])) if st else "None")
+
+
+def xread(c):
+    """per stored row: (events as (time, name), status code) of the span OutputQuery returned"""
+    return coq_list(["(Some (%s, %s))" % (coq_list(["(%d, %s)" % (e["t"], S(e["n"])) for e in (r.get("ev") or [])]), Z(r.get("status", 0)))
+                     if r.get("ok") else "None" for r in (c["read"] or [])])
+
+
 def ores(r):
     return "(Build_ores %s %s %s)" % (
         "true" if r["has_res"] else "false", kvs(r["attrs"]),
@@ -186,7 +198,7 @@ def case_to_coq(c):
         coq_list([rspan(r) for r in (c["read"] or [])]))
 
 
-HEADER = ("From Coq Require Import List ZArith NArith Bool String Ascii Uint63.\nFrom Qryn Require Import model.Spans model.SpansChunk model.SpansWire model.SpansStore model.SpansJson.\n"
+HEADER = ("From Coq Require Import List ZArith NArith Bool String Ascii Uint63.\nFrom Qryn Require Import model.Spans model.SpansChunk model.SpansWire model.SpansStore model.SpansJson model.SpansWireX.\n"
           "Import ListNotations.\nOpen Scope string_scope.\nOpen Scope Z_scope.\n")
 
 
@@ -213,9 +225,11 @@ def cases_file(cases):
     cc = "Definition ccases : list ccase := %s.\n" % coq_list(
         ["(Build_ccase c%d %s %s)" % (c["id"], coq_list([Z(n) for n in c.get("text_lens") or []]),
                                       coq_list(["(%d, %d)" % (a, b) for a, b in c.get("resp") or []])) for c in cases])
-    wc = "Definition wcases : list wcase := %s.\n" % coq_list(
-        ["(Build_wcase %d (c_in c%d) %s)" % (c["id"], c["id"], coq_list(
-            ["(%d, (%d%%uint63, %d%%uint63))" % (n, fp[0], fp[1]) for n, fp in zip(c.get("pay_lens") or [], c.get("pay_fp") or [])]))
+    wc = "Definition xcases : list xcase := %s.\n" % coq_list(
+        ["(Build_xcase %d (c_in c%d) %s %s %s)" % (c["id"], c["id"],
+            coq_list([oextra(sp) for r in c["otlp"] for sc in (r["scopes"] or []) for sp in (sc or [])]),
+            coq_list(["(%d, (%d%%uint63, %d%%uint63))" % (n, fp[0], fp[1]) for n, fp in zip(c.get("pay_lens") or [], c.get("pay_fp") or [])]),
+            xread(c))
          for c in cases if c["fmt"] == "otlp"])
     return HEADER + "\n".join(IN.defs) + "\n" + "\n".join(one) + "\n" + lst + cc + wc + tc
 
@@ -230,17 +244,19 @@ def eval_text(ck, name, cases_txt):
            "Definition V := Eval vm_compute in spec_violations cases.\nPrint V.\n"
            "Definition R := Eval vm_compute in regressions cases.\nPrint R.\n"
            "Definition CM := Eval vm_compute in chunk_mismatches (fun c => psz_store (cc_lens c)) ccases.\nPrint CM.\n"
-           "Definition WM := Eval vm_compute in wire_mismatches wcases.\nPrint WM.\n"
-           "Definition WR := Eval vm_compute in wire_roundtrip_failures wcases.\nPrint WR.\n"
+           "Definition WM := Eval vm_compute in wirex_mismatches xcases.\nPrint WM.\n"
+           "Definition WR := Eval vm_compute in wirex_roundtrip_failures xcases.\nPrint WR.\n"
            "Definition CV := Eval vm_compute in chunk_spec_violations ccases.\nPrint CV.\n"
            "Definition TM := Eval vm_compute in tok_mismatches tcases.\nPrint TM.\n"
-           "Definition TI := Eval vm_compute in tok_illformed tcases.\nPrint TI.\n")
+           "Definition TI := Eval vm_compute in tok_illformed tcases.\nPrint TI.\n"
+           "Definition TV := Eval vm_compute in tok_spec_violations tcases.\nPrint TV.\n"
+           "Definition XV := Eval vm_compute in xread_violations xcases.\nPrint XV.\n")
     rc, out = ck.coq_eval(name, txt)
     if rc != 0:
         return None, out
     flat = " ".join(out.split())
     res = {}
-    for nm in ("M", "V", "CM", "CV", "WM", "WR", "TM", "TI"):
+    for nm in ("M", "V", "CM", "CV", "WM", "WR", "TM", "TI", "TV", "XV"):
         m = re.search(r"(?<![A-Z])" + nm + r" = \[(.*?)\]\s*: list Z", flat)
         if not m:
             return None, out
@@ -307,7 +323,7 @@ def run_spans(ck):
     if not ck.go_build("spans"):
         ck.obligation("harness spans builds against the repository", False, ck.build_out[-1500:])
         return
-    n = ck.n(700, 12000)
+    n = ck.n(420, 12000)
     cases = []
     corpus = os.path.join(HERE, "corpus", PID, "spans.jsonl")
     if os.path.exists(corpus):
@@ -322,7 +338,9 @@ def run_spans(ck):
             c["class"] = "corpus:" + c.get("class", "")
         cases += cs
     outp = os.path.join(ck.work, "spans.jsonl")
-    env = {"SPANS_DEPTH": "3" if ck.quick() else "4"}
+    # quick tier: of the 17 large fixed requests (ids 7-23) one per class stays (OTLP > 1 MiB, array / NDJSON beyond the read buffers, hundreds of
+    # small spans, long line in both framings, two flushes, exactly 1 MiB, 1 MiB + 1, failure after a flush in Zipkin and OTLP); the thorough tier runs all
+    env = {"SPANS_DEPTH": "3" if ck.quick() else "4", "SPANS_SKIP": "9,12,13,15,18,21" if ck.quick() else ""}
     rc, out = ck.go_run("spans", ["--seed", ck.seed, "--n", n, "--out", outp], env_extra=env)
     if rc != 0:
         ck.obligation("harness spans ran", False, out[-1500:])
@@ -346,7 +364,7 @@ def run_spans(ck):
                   "case ids: %s; %s" % ([c["id"] for c in changed[:10]], changed[0]["retry_diff"][:300] if changed else ""))
     cases = [c for c in cases if not c.get("panic")]
     byid = {c["id"]: c for c in cases}
-    tot = {"M": [], "V": [], "R": [], "CM": [], "CV": [], "WM": [], "WR": [], "TM": [], "TI": []}
+    tot = {"M": [], "V": [], "R": [], "CM": [], "CV": [], "WM": [], "WR": [], "TM": [], "TI": [], "TV": [], "XV": []}
     # Coq spends ~0.1 s per request elaborating the literal: shards are evaluated by parallel coqc processes
     shard = 100
     heavy = [c for c in cases if size_of(c) > 40000]           # the > 64 KiB / > 1 MiB requests: a shard each
@@ -369,7 +387,7 @@ def run_spans(ck):
         known_ids = {c["id"] for c in sur}
         ck.report_known("zipkin-lone-surrogate", "the tag-index value and the value read back differ for a string with an unpaired surrogate escape "
                         "(case ids %s: %s)" % (sorted(known_ids)[:5], sur[0]["pay_tok_diff"][:160]))
-    for key in ("M", "V", "TM"):
+    for key in ("M", "V", "TM", "TV"):
         tot[key] = [i for i in tot[key] if i not in known_ids]
     tot["R"] = [(i, q) for (i, q) in tot["R"] if i not in known_ids]
     mism, viol = tot["M"], tot["V"]
@@ -384,6 +402,17 @@ def run_spans(ck):
                   "texts through ParseInt, skipped values) = the tree-level decoder on what the tokens denote, and SpansJson.read_row_tok / read_events "
                   "(fastjson parse of the stored token stream, fields, kind, annotations -> events) = OutputQuery, on %d Zipkin requests" % len(zcases),
                   not tm, "mismatching case ids: %s" % tm[:10])
+    tv = tot["TV"]
+    ck.obligation("spec oracle on kind and events: every span read back carries the kind its stored text names and, when every annotation denotes an "
+                  "event (integer microseconds 0 < us, nanoseconds inside uint64, string value), exactly those events in order", not tv,
+                  "violating case ids: %s" % tv[:10])
+    nilstatus = [c for c in cases if any(r.get("ok") and r.get("status", 0) < 0 for r in c["read"])]
+    ck.obligation("every span read back has a status (UNSET when the payload carries none)", not nilstatus, "case ids: %s" % [c["id"] for c in nilstatus[:10]])
+    if tv and not viol:
+        w = min((byid[i] for i in tv), key=size_of)
+        ck.violation({"property": PID, "kind": "a stored Zipkin span reads back with another kind or other events than its text denotes", "case": slim(w),
+                      "read": w["read"], "delivery": delivery_of(ck, w),
+                      "replay": "harness spans --cases <file holding the 'case' object on one line> --out /dev/stdout"})
     diff = [c for c in zcases if c.get("pay_tok_diff") and c["id"] not in known_ids]
     ck.obligation("the write side's tokenizer (jx) and the read side's (fastjson) read the same token stream from every stored Zipkin payload "
                   "(%d payloads)" % sum(len(c["spans"] or []) for c in zcases), not diff,
@@ -412,15 +441,24 @@ def run_spans(ck):
     # fingerprints of every stored payload), and the round trip dec_span (enc_span s) = s evaluated on every payload of the run
     wm, wr = tot["WM"], tot["WR"]
     notlp = sum(len(c.get("pay_fp") or []) for c in cases if c["fmt"] == "otlp")
-    ck.obligation("correspondence: model SpansWire.enc_span (protobuf wire encoding of the stored span) = the bytes of the payload column "
+    ck.obligation("correspondence: model SpansWireX.enc_spanx (protobuf wire encoding of the stored span incl. its events and status) = the bytes of the payload column "
                   "(length and two 53-bit fingerprints) for %d stored OTLP payloads" % notlp, not wm, "mismatching case ids: %s" % wm[:10])
-    ck.obligation("every stored OTLP payload of the run lies in the domain of dec_enc_span and dec_span (enc_span s) = s evaluates to true",
+    ck.obligation("every stored OTLP payload of the run lies in the domain of dec_enc_spanx and dec_spanx (enc_spanx s x) = (s, x) evaluates to true",
                   not wr, "case ids: %s" % wr[:10])
     if wm and not viol and not mism:
         w = min((byid[i] for i in wm), key=size_of)
         ck.violation({"property": PID, "kind": "model/implementation disagree on the bytes of the stored OTLP payload", "case": slim(w),
                       "payload_lengths": w.get("pay_lens"), "broken": "correspondence SpansWire.enc_span vs proto.Marshal in OTLPDecoder.Decode"},
                      no_input=True)
+    xv = tot["XV"]
+    nextra = sum(1 for c in cases if c["fmt"] == "otlp" for r in c["otlp"] for sc in (r["scopes"] or []) for sp in (sc or []) if sp.get("events") or sp.get("status"))
+    ck.obligation("spec oracle on OTLP events and status: the k-th stored span of every request reads back with the events (time, name) and the status code "
+                  "of the k-th pushed span, UNSET when it has none (%d pushed spans carry events or a status)" % nextra, not xv, "violating case ids: %s" % xv[:10])
+    if xv and not viol:
+        w = min((byid[i] for i in xv), key=size_of)
+        ck.violation({"property": PID, "kind": "a stored OTLP span reads back with other events or another status than were pushed", "case": slim(w),
+                      "read": w["read"], "replay": "harness spans --cases <file holding the 'case' object on one line> --out /dev/stdout"})
+    ck.extra["otlp_spans_with_events_or_status"] = nextra
     ck.extra["otlp_payloads_compared_bytewise"] = notlp
     if cv:
         w = min((byid[i] for i in cv), key=size_of)
@@ -471,14 +509,41 @@ def run_spans(ck):
     ck.coverage["rule"] += ("span requests: OTLP protobuf (1-3 resources x 0-2 scopes x 0-3 spans, attributes of every AnyValue kind nested to depth %s, "
                             "repeated and special keys, zero/max ids, end<start and >2^63 times, missing resource, missing value), Zipkin JSON array and NDJSON "
                             "(1-4 spans, shuffled fields, 1-37 digit ids, string/number times incl. the *1000 overflow edge, endpoints, string and non-string "
-                            "tags, repeated fields, one malformed field in 20%% incl. integers above 2^64, exponent/fraction forms and microseconds whose nanoseconds leave int64), "
-                            "seven requests around and above the 1 MiB flush threshold (accumulated size exactly 1 MiB, 1 MiB + 1, 2.4 MiB in both Zipkin framings and OTLP, "
-                            "three of them failing after a flush), six Zipkin requests of 40-320 spans with bodies of 74-180 kB (beyond the decoders' 64 KiB "
-                            "read buffers) in both framings; every body is delivered to the parser either in one piece (35%%), byte by byte (10%%), in 1..1500-byte "
+                            "tags, repeated fields, one malformed field in 20%% incl. integers above 2^64, exponent/fraction forms and microseconds whose nanoseconds leave int64; "
+                            "strings and member names written with encoding/json's escapes (50%%), with every non-ASCII character, '/' and control character as an escape "
+                            "incl. surrogate pairs (30%%) or additionally every third character as \\u00XX (20%%); the number -0; ports and annotation timestamps in "
+                            "fraction / exponent / out-of-range forms; kind; 0-3 annotations with proper and improper members; on one NDJSON request in eight a tail "
+                            "after a span object: garbage, a second object, a comma, a bracket, a scalar or whitespace), 30%% of the OTLP spans with 0-2 events "
+                            "(time, name, attributes) and a status, "
+                            "the requests around and above the 1 MiB flush threshold (accumulated size exactly 1 MiB, 1 MiB + 1, 2.4 MiB, failures after a flush in Zipkin and "
+                            "OTLP; quick tier: one per class, thorough: seven), Zipkin requests of 40-320 spans with bodies of 74-180 kB (beyond the decoders' 64 KiB "
+                            "read buffers) in both framings (quick: four, thorough: six) and lines beyond 64 KiB; every body is delivered to the parser either in one piece (35%%), byte by byte (10%%), in 1..1500-byte "
                             "(40%%) or 1..64-byte (15%%) Reads; for 40%% of the requests the insert step is run as after a failed insert (ProcessRequest twice on the same request "
                             "object, the second block judged); each request goes through the real parser, every produced row through the real "
                             "OutputQuery; non-trivial = accepted with >= 2 spans or >= 4 tag rows; distinct by content. " % env["SPANS_DEPTH"])
     ck.extra["input_distribution"] = hist
+    # what the tokenizer delivered to the token-level model (measured on the jx streams of the run)
+    lex = {"string_writing_mode": {}, "number_tokens": {}, "tokens": 0, "requests_with_a_line_tail": 0, "requests_with_annotations": 0}
+    for c in cases:
+        if c["fmt"] == "otlp":
+            continue
+        m = {0: "encoding/json", 1: "non-ASCII and / escaped", 2: "every third character escaped"}[c.get("esc", 0)]
+        lex["string_writing_mode"][m] = lex["string_writing_mode"].get(m, 0) + 1
+        if any(c.get("tails") or []):
+            lex["requests_with_a_line_tail"] += 1
+        ann = False
+        for ts in c.get("toks") or []:
+            lex["tokens"] += len(ts)
+            for t in ts:
+                if t == "kannotations":
+                    ann = True
+                if t[:1] == "n":
+                    x = t[1:]
+                    k = ("-0" if x == "-0" else "exponent or fraction" if re.search(r"[.eE]", x) else "integer beyond int64" if len(x.lstrip("-")) > 18 and not (-2**63 <= int(x) < 2**63)
+                         else "negative integer" if x.startswith("-") else "integer")
+                    lex["number_tokens"][k] = lex["number_tokens"].get(k, 0) + 1
+        lex["requests_with_annotations"] += 1 if ann else 0
+    ck.extra["zipkin_token_streams"] = lex
     ck.extra["requests_with_retried_insert"] = sum(1 for c in cases if c.get("retry"))
     ck.extra["delivery_modes"] = {SEG[k]: sum(1 for c in cases if c.get("seg_mode", 0) == k) for k in SEG}
     ck.extra["requests_answered_in_several_responses"] = sum(1 for c in cases if len(c.get("resp") or []) > 1)
@@ -531,9 +596,12 @@ def run(ck):
         run_replay(ck)
         return
     ck.trusted += [
-        "C06: the OTLP payload is concrete (SpansWire.enc_span = proto.Marshal byte for byte on every stored payload of the run, dec_span (enc_span s) = s "
-        "proved); UTF-8 validation of protobuf strings and span fields the writer never sets (events, links, status, trace_state, flags) are not modelled; the "
-        "Zipkin payload (the element's own text) and its parsing by jx / fastjson stay abstract: the correspondence compares the decoded value",
+        "C06: the OTLP payload is concrete (SpansWireX.enc_spanx = proto.Marshal byte for byte on every stored payload of the run, events and status included; "
+        "dec_spanx (enc_spanx s x) = (s, x) proved); UTF-8 validation of protobuf strings and span fields the generator never sets (links, trace_state, flags, dropped "
+        "counts, event dropped count) are not modelled; the legacy JSON form of OTLP payloads (parseOTLPJson, written by the JS writer only) is not modelled",
+        "C06: the Zipkin payload is a JSON TOKEN STREAM (SpansJson: the write path's walk, the read path's parse, fields, kind, annotations are Gallina over tokens); "
+        "the tokenizers themselves (bytes -> tokens: whitespace, escape decoding, number scanning, UTF-8) are the oracle: jx on every element text, fastjson on every "
+        "stored payload, the two streams compared; strings are valid UTF-8 in the generator; an unpaired surrogate escape is the one known disagreement (finding zipkin-lone-surrogate)",
         "C06: rows are observed as the ch-go columns (by column name) that the real insert services' AcquireColumns/ProcessRequest build from the "
         "parsers' output, and replayed as database rows to the read path; block transport and ClickHouse storage are not modelled (a stored row is "
         "assumed to be read back as written); the Date column is computed with zone offset 0 (UTC)",
